@@ -118,3 +118,50 @@ Section CutReader.
     split; [repeat split; cbn; now rewrite ?app_nil_r | exact HI].
   Qed.
 End CutReader.
+
+(* ---------------------------------------------------------------- the kernel keeps the frame condition *)
+(* live descriptors are below the counter; IN_IGNORED records in the queue are about dead descriptors below the counter *)
+Definition KQ (k : kst) : Prop :=
+  (forall kw, In kw (k_watches k) -> kw_wd kw < k_next_wd k) /\ ignfree (k_queue k) k.
+
+Lemma kpush_in q e a : In a (kpush q e) -> In a q \/ a = e.
+Proof.
+  unfold kpush. destruct (rev q) as [|l rq]; [|destruct (kraw_eqb l e)]; intros H; auto;
+    apply in_app_iff in H as [H|[<-|[]]]; auto.
+Qed.
+
+Lemma knotify_KQ k ino bit (isd : bool) c name : (if isd then N.lor bit IN_ISDIR else bit) <> IN_IGNORED -> KQ k -> KQ (knotify k ino bit isd c name).
+Proof.
+  intros Hm [L HI]. unfold knotify. destruct (watch_of_ino k ino) as [w|]; [|now split].
+  destruct (N.eqb (N.land bit (kw_mask w)) 0); [now split|]. split; [exact L|]. cbn [k_queue k_watches k_next_wd].
+  intros a Ha Hma. apply kpush_in in Ha as [Ha| ->]; [now apply HI|]. cbn [k_mask] in Hma. contradiction.
+Qed.
+
+Lemma kgone_KQ k ino af : KQ k -> KQ (kgone k ino af).
+Proof.
+  intros H. unfold kgone. destruct (watch_of_ino k ino) as [w|] eqn:Ew; [|exact H].
+  set (k1 := if af then knotify k ino IN_ATTRIB true 0 [] else k).
+  assert (H1 : KQ k1) by (subst k1; destruct af; [apply knotify_KQ; [vm_compute; discriminate | exact H] | exact H]).
+  assert (H2 : KQ (knotify k1 ino IN_DELETE_SELF false 0 [])) by (apply knotify_KQ; [vm_compute; discriminate | exact H1]).
+  set (k2 := knotify k1 ino IN_DELETE_SELF false 0 []) in *.
+  assert (Hw : In w (k_watches k2)).
+  { assert (E : k_watches k2 = k_watches k).
+    { unfold k2, k1. destruct af; unfold knotify;
+        repeat (match goal with |- context [match ?x with _ => _ end] => destruct x end); reflexivity. }
+    rewrite E. unfold watch_of_ino in Ew. now apply find_some in Ew as [Ew _]. }
+  destruct H2 as [L HI]. split; cbn [k_watches k_next_wd k_queue].
+  - intros kw Hk. apply filter_In in Hk as [Hk _]. now apply L.
+  - intros a Ha Hma. apply kpush_in in Ha as [Ha| ->].
+    + destruct (HI a Ha Hma) as [A B]. split; [exact A|]. intros kw Hk. apply filter_In in Hk as [Hk _]. now apply B.
+    + cbn [k_wd]. split; [now apply L|]. intros kw Hk. apply filter_In in Hk as [_ Hk]. apply negb_true_iff, N.eqb_neq in Hk. exact Hk.
+Qed.
+
+Lemma kernel_op_KQ k t o : KQ k -> KQ (kernel_op k t o).
+Proof.
+  intros H. destruct o as [p|p|p|p|p|p|p q]; cbn [kernel_op];
+    repeat first [ apply knotify_KQ; [vm_compute; discriminate|] | apply kgone_KQ | exact H
+                 | match goal with |- KQ (if ?b then _ else _) => destruct b end ].
+  - destruct (fisdir p t); repeat (apply knotify_KQ; [vm_compute; discriminate|]); exact H.
+  - destruct (fisdir p t), (fisdir q t); repeat first [apply kgone_KQ | apply knotify_KQ; [vm_compute; discriminate|]];
+      (destruct H as [L HI]; split; [exact L | exact HI]).
+Qed.
